@@ -278,6 +278,7 @@ def possibly_unbound(f):
     TOP = None  # "every name" (after a statement that does not fall through)
     guards = []  # active (condition text, polarity) pairs
     cond_defs = {}  # name -> list of guard sets under which it was assigned
+    strict_lost = set()  # names that an explicit if/else (both sides present) assigns on one side only: the shape a deleted assignment leaves
     # a condition may be re-tested later (`if t == "spherical": T = ...` ... `if t == "spherical": use T`): the second test implies the
     # first as long as nothing it mentions is reassigned in between - only conditions over names that are bound once (parameters, loop
     # targets of an enclosing loop, single assignments) are used for that
@@ -310,7 +311,7 @@ def possibly_unbound(f):
                     uses(ch, sub_defs)
                 continue
             if isinstance(x, ast.Name) and isinstance(x.ctx, ast.Load) and x.id in local and x.id not in params:
-                if defs is not TOP and x.id not in defs and not covered(x.id) and (x.id, x.lineno) not in seen:
+                if defs is not TOP and x.id not in defs and x.id in strict_lost and not covered(x.id) and (x.id, x.lineno) not in seen:
                     seen.add((x.id, x.lineno))
                     out.append((x, x.id))
             stack.extend(ast.iter_child_nodes(x))
@@ -344,11 +345,7 @@ def possibly_unbound(f):
         if isinstance(st, ast.Assign):
             uses(st.value, defs)
             for t in st.targets:
-                for sub in ast.walk(t):
-                    if isinstance(sub, (ast.Subscript, ast.Attribute)):
-                        uses(sub.value, defs)
-                        if isinstance(sub, ast.Subscript):
-                            uses(sub.slice, defs)
+                uses(t, defs)  # loads inside subscripts / attributes of the target (comprehension scopes respected)
             new = set(defs)
             for t in st.targets:
                 new |= targets(t)
@@ -356,8 +353,8 @@ def possibly_unbound(f):
         if isinstance(st, ast.AugAssign):
             uses(st.value, defs)
             if isinstance(st.target, ast.Name):
-                if st.target.id in local and st.target.id not in params and st.target.id not in defs and not covered(st.target.id) \
-                        and (st.target.id, st.lineno) not in seen:
+                if st.target.id in local and st.target.id not in params and st.target.id not in defs and st.target.id in strict_lost \
+                        and not covered(st.target.id) and (st.target.id, st.lineno) not in seen:
                     seen.add((st.target.id, st.lineno))
                     out.append((st.target, st.target.id))
             else:
@@ -372,15 +369,22 @@ def possibly_unbound(f):
             uses(st.test, defs)
             txt = ast.unparse(st.test)
             ok_guard = stable(st.test)
+            # a taken `a and b` makes both a and b known; an untaken `a or b` makes both known to be false
+            pos_extra = [(ast.unparse(v), True) for v in st.test.values] if isinstance(st.test, ast.BoolOp) and isinstance(st.test.op, ast.And) else []
+            neg_extra = [(ast.unparse(v), False) for v in st.test.values] if isinstance(st.test, ast.BoolOp) and isinstance(st.test.op, ast.Or) else []
             if ok_guard:
                 guards.append((txt, True))
+                guards.extend(pos_extra)
             a = block(st.body, set(defs))
             if ok_guard:
-                guards.pop()
+                del guards[len(guards) - 1 - len(pos_extra):]
                 guards.append((txt, False))
+                guards.extend(neg_extra)
             b = block(st.orelse, set(defs))
             if ok_guard:
-                guards.pop()
+                del guards[len(guards) - 1 - len(neg_extra):]
+            if st.orelse and a is not TOP and b is not TOP:
+                strict_lost.update((a | b) - (a & b) - set(defs))
                 # names assigned on one side only stay usable wherever the same test is known to have the same outcome
                 for side, pol in ((a, True), (b, False)):
                     other = b if pol else a
